@@ -14,6 +14,7 @@ T  seeded rasters to 8x8 (a few up to 10x10 with > 64 provisional regions), int 
    masks of several dtypes, affine transforms (scale, flip, rotation, shear, fractional).
 """
 import itertools
+import json
 import random
 
 from harness import core
@@ -22,8 +23,28 @@ from harness.props import c16 as shapes
 NANV = -99
 INV = ["TypeOK", "LosslessHolds", "LookupDecreasing", "IdsBounded", "ForestNeverJoins", "ForestJoinsScanned",
        "RegionsAreComponents", "FirstPixelOrder", "HoleOwnerExists", "PointsFitAllocation", "AllocationExact",
+       "FollowTerminates",
        "PolygonsInRegionOrder"]
-STRIP = ("tag", "dtype", "hasmask", "hastr", "tden", "error")
+STRIP = ("tag", "dtype", "hasmask", "hastr", "tden", "error", "timeout", "skipped", "job")
+
+
+def mc(ctx, failed, module, cfg, name, **kw):
+    """ctx.model_check for a configuration that must pass: a run that did not complete is a machinery
+    failure; an invariant violated by the *model* is remembered (the replay of the real code decides
+    whether it is a defect of the code or of the model)."""
+    res = ctx.model_check(module, cfg, name, **kw)
+    if res.invariant_violated or res.property_violated or res.assume_failed or res.deadlock:
+        failed.append("%s/%s %s" % (module, name, res.invariant_violated))
+        ctx.note("MODEL-VIOLATION %s/%s: %s" % (module, name, res.invariant_violated))
+    elif not res.ok or res.distinct == 0:
+        raise core.MachineryError("TLC did not complete %s/%s (rc=%s)\n%s" % (module, name, res.rc, res.out[-2500:]))
+    return res
+
+
+def close(ctx, failed):
+    if failed and not ctx.violations:
+        raise core.MachineryError("the algorithm model violates its invariants (%s) but no observation of the real "
+                                  "code violates the property: the model does not describe the code" % "; ".join(failed))
 
 
 def mc_configs(tier):
@@ -54,7 +75,7 @@ def mc_configs(tier):
 
 def replay_scopes(tier):
     # name, H, W, value alphabet, enumerate all masks?
-    q = [
+    return [
         ("3x3_b", 3, 3, [0, 1], False),
         ("2x3_b_masks", 2, 3, [0, 1], True),
         ("3x2_b_masks", 3, 2, [0, 1], True),
@@ -63,22 +84,18 @@ def replay_scopes(tier):
         ("1x4_b_masks", 1, 4, [0, 1], True),
         ("4x1_b_masks", 4, 1, [0, 1], True),
         ("1x1_b_masks", 1, 1, [0, 1], True),
-    ]
-    t = q + [
-        ("4x4_b", 4, 4, [0, 1], False),
-        ("3x3_t", 3, 3, [0, 1, 2], False),
-        ("3x3_b_masks", 3, 3, [0, 1], True),
-        ("1x6_b_masks", 1, 6, [0, 1], True),
-        ("6x1_b_masks", 6, 1, [0, 1], True),
-    ]
-    return t if tier == "thorough" else q
+    ] + ([("1x6_b_masks", 1, 6, [0, 1], True), ("6x1_b_masks", 6, 1, [0, 1], True)] if tier == "thorough" else [])
 
 
-def enum_jobs(scope):
+# thorough only; each is replayed in its own round of worker processes (memory)
+BIG_SCOPES = [("4x4_b", 4, 4, [0, 1], False), ("3x3_t", 3, 3, [0, 1, 2], False), ("3x3_b_masks", 3, 3, [0, 1], True)]
+
+
+def enum_jobs(scope, conns=(4, 8)):
     name, H, W, base, masks = scope
     n = H * W
     jobs = []
-    for conn in (4, 8):
+    for conn in conns:
         for ridx, cells in enumerate(itertools.product(base, repeat=n)):
             raw = [list(cells[r * W:(r + 1) * W]) for r in range(H)]
             if not masks:
@@ -108,10 +125,10 @@ TRANSFORMS = [None, None, None,
               ([3, 2, 500, -2, 3, 777], 4)]       # rotation + scale, fractional
 
 
-def random_jobs(rng, n, maxside, big):
+def random_jobs(rng, n, maxside, big, offset=0):
     jobs = []
     for i in range(n):
-        dtype, mdtype = SIGS[i % len(SIGS)]
+        dtype, mdtype = SIGS[(offset + i) % len(SIGS)]
         gen = shapes.GENS[(i // len(SIGS)) % len(shapes.GENS)]
         if i < big:
             # many provisional regions (> 64): the region_lookup array has to grow
@@ -155,8 +172,8 @@ def merge_jobs(rng, tier):
         for seq in itertools.product(pairs, repeat=k):
             jobs.append({"merge_seq": [list(p) for p in seq], "m": M, "size0": 64 if len(jobs) % 2 else 2,
                          "tag": "all_sequences"})
-    for i in range(300 if tier == "quick" else 3000):
-        m = rng.choice([8, 20, 70, 90])
+    for i in range(100 if tier == "quick" else 1500):
+        m = rng.choice([8, 20, 70])
         seq = []
         for _ in range(rng.randint(3, 2 * m)):
             a, b = rng.sample(range(1, m + 1), 2)
@@ -170,12 +187,16 @@ def nonrectangle(case):
 
 
 def judge_and_handle(ctx, cases, name, kind, parallel):
-    good = [c for c in cases if "error" not in c]
+    skipped = sum(1 for c in cases if c.get("skipped"))
+    if skipped:
+        ctx.note("%s: %d cases not run after repeated worker timeouts" % (name, skipped))
+    good = [c for c in cases if "error" not in c and not c.get("skipped")]
     for c in cases:
         if "error" in c:
             ctx.evaluations += 1
-            ctx.violation("polygonize:call-raised", "call_raised",
-                          {k: c[k] for k in ("H", "W", "conn", "raw", "mask", "tr", "dtype", "tag")}, c["error"])
+            key = "polygonize:call-did-not-return" if c.get("timeout") else "polygonize:call-raised"
+            ctx.violation(key, key.split(":")[1].replace("-", "_"), {"job": c["job"]}, c["error"])
+    ctx.judge_extra.clear()
     v = ctx.judge("Polygonize_Judge", [{k: x for k, x in c.items() if k not in STRIP} for c in good],
                   name=name, parallel=parallel)
     for i, c in enumerate(good):
@@ -189,13 +210,24 @@ def judge_and_handle(ctx, cases, name, kind, parallel):
                 ctx.nontrivial((c["conn"], c["H"], c["W"], tuple(map(tuple, c["raw"])),
                                 tuple(map(tuple, c["mask"]))))
         else:
-            ctx.violation("polygonize:%s" % cl, cl, {k: c[k] for k in c if k != "base"},
+            ctx.violation("polygonize:%s" % cl, cl,
+                          {"job": c["job"], "observed": {k: c[k] for k in c if k not in ("base", "job")}},
                           "%s %dx%d conn=%d dtype=%s mask=%d transform=%d"
                           % (c["tag"], c["H"], c["W"], c["conn"], c["dtype"], c["hasmask"], c["hastr"]))
         dr = ctx.judge_extra.get(i)
         if dr and dr.startswith("drift"):
             ctx.report_drift("%s (%s): conn=%d raw=%s mask=%s" % (dr, kind, c["conn"], c["raw"], c["mask"]))
     return good
+
+
+def replay(ctx):
+    """./check C15 --replay <file>: that one case again through the real polygonize() and the judge"""
+    blob = json.load(open(ctx.replay))
+    job = dict(blob["case"]["job"], idx=-1, base=[], maskenum=0)
+    cases = core.run_jobs("polygonize_worker", [job], nproc=1)
+    good = judge_and_handle(ctx, cases, "replay", "replay", parallel=1)
+    print("REPLAY verdict: %s" % ("ok" if (good and not ctx.violations) else
+                                  (ctx.violations[0][1] if ctx.violations else cases[0].get("error"))), flush=True)
 
 
 def run(ctx):
@@ -209,20 +241,24 @@ def run(ctx):
         "NaN cell values, non-invertible transforms and the geopandas / spatialpandas / awkward return types are "
         "not exercised",
     ]
+    if ctx.replay:
+        return replay(ctx)
     rng = random.Random(ctx.seed * 7919 + 15)
     cfgs = mc_configs(ctx.tier)
     # ---- M
+    failed = []
     for (name, H, W, base, conn) in cfgs:
-        ctx.model_check("Polygonize", dict(spec="Spec", invariants=INV, constants=dict(
+        mc(ctx, failed, "Polygonize", dict(spec="Spec", invariants=INV, constants=dict(
             H=H, W=W, VALS=set(base), CONN=conn, MUT="none")), name, coverage=(name == "3x3_b_c8"))
     for mut, H, W, conn, inv in (("nochain", 3, 4, 4, "RegionsAreComponents"),
                                  ("nose", 3, 3, 8, "RegionsAreComponents"),
                                  ("straightfirst", 3, 3, 4, "LosslessHolds"),
                                  ("novisit2", 3, 3, 4, "LosslessHolds")):
-        ctx.model_check("Polygonize", dict(spec="Spec", invariants=[inv], constants=dict(
+        ctx.model_check("Polygonize", dict(spec="Spec", invariants=[inv, "FollowTerminates", "PointsFitAllocation"],
+                                           constants=dict(
             H=H, W=W, VALS={0, 1}, CONN=conn, MUT=mut)), "neg_" + mut, expect="violation")
     mk = ctx.pick((5, 4), (6, 5))
-    ctx.model_check("PolygonizeMerge", dict(spec="Spec", invariants=["LookupDecreasing", "ForestIsClosure",
+    mc(ctx, failed, "PolygonizeMerge", dict(spec="Spec", invariants=["LookupDecreasing", "ForestIsClosure",
                                                                       "RootIsMinimum"],
                                             constants=dict(M=mk[0], K=mk[1], MUT="none")), "merge_forest")
     ctx.model_check("PolygonizeMerge", dict(spec="Spec", invariants=["ForestIsClosure"],
@@ -230,13 +266,22 @@ def run(ctx):
                     expect="violation")
     ctx.exhaustive = True
 
-    # ---- R: direct drive of the compiled _merge_regions
+    # ---- one round of worker processes for everything that runs the real code
     mj = merge_jobs(rng, ctx.tier)
-    mcases = core.run_jobs("polygonize_worker", mj)
+    ej = []
+    for sc in replay_scopes(ctx.tier):
+        ej += enum_jobs(sc)
+    tj = random_jobs(rng, ctx.pick(400, 4000), 8, ctx.pick(16, 120), offset=len(mj) + len(ej))
+    allcases = core.run_jobs("polygonize_worker", mj + ej + tj)
+    mcases = allcases[:len(mj)]
+    ecases = allcases[len(mj):len(mj) + len(ej)]
+    tcases = allcases[len(mj) + len(ej):]
+
+    # ---- R: direct drive of the compiled _merge_regions (drift only, DESIGN 3 rule 5)
     for c in mcases:
         if "error" in c:
             ctx.report_drift("_merge_regions raised on %s: %s" % (c["seq"], c["error"]))
-    mgood = [c for c in mcases if "error" not in c]
+    mgood = [c for c in mcases if "error" not in c and not c.get("skipped")]
     v = ctx.judge("Polygonize_MergeJudge", [{k: x for k, x in c.items() if k != "tag"} for c in mgood],
                   name="merge_direct_drive", parallel=4, count_traces=False)
     for i, c in enumerate(mgood):
@@ -246,24 +291,32 @@ def run(ctx):
         if dr and dr.startswith("drift"):
             ctx.report_drift("_merge_regions differs from MergeRegions: %s -> %s" % (c["seq"], c["lookup"]))
     ctx.extra["merge_sequences_driven"] = len(mcases)
+    ctx.judge_extra.clear()
 
     # ---- R: the complete enumerated scope through the real polygonize()
-    jobs = []
-    for sc in replay_scopes(ctx.tier):
-        jobs += enum_jobs(sc)
-    cases = core.run_jobs("polygonize_worker", jobs)
-    good = judge_and_handle(ctx, cases, "replay_all_rasters", "R", parallel=8)
-    ctx.extra["replayed_cases"] = len(cases)
+    good = judge_and_handle(ctx, ecases, "replay_all_rasters", "R", parallel=8)
+    replayed = len(ecases)
     for c in good[100:101] + good[-50:-49]:
         ctx.sample({"kind": "replay", "conn": c["conn"], "raw": c["raw"], "mask": c["mask"], "polys": c["polys"]})
+    del good, ecases, allcases
 
     # ---- T: seeded larger rasters, dtypes, masks, transforms
-    jobs = random_jobs(rng, ctx.pick(400, 6000), 8, ctx.pick(16, 160))
-    cases = core.run_jobs("polygonize_worker", jobs)
-    good = judge_and_handle(ctx, cases, "seeded_shapes", "T", parallel=8)
+    good = judge_and_handle(ctx, tcases, "seeded_shapes", "T", parallel=8)
     for c in good[20:22]:
         ctx.sample({"kind": "seeded", "gen": c["tag"], "conn": c["conn"], "dtype": c["dtype"], "raw": c["raw"],
                     "mask": c["mask"], "tr": c["tr"], "tden": c["tden"], "polys": c["polys"]})
+    del good, tcases
+
+    # ---- R (thorough): the large enumerations, one round of worker processes each
+    if ctx.tier == "thorough":
+        for sc in BIG_SCOPES:
+            for conn in (4, 8):
+                cases = core.run_jobs("polygonize_worker", enum_jobs(sc, (conn,)))
+                replayed += len(cases)
+                judge_and_handle(ctx, cases, "replay_%s_c%d" % (sc[0], conn), "R", parallel=8)
+                del cases
+    ctx.extra["replayed_cases"] = replayed
+    close(ctx, failed)
 
 
 META = {
